@@ -1392,7 +1392,20 @@ fn c13_merge_tool(t: &RefuseTool, out: &mut Outcome) {
 }
 
 pub fn c13_tool(t: &RefuseTool, out: &mut Outcome) {
+    refuse_tool_run(t, out, false)
+}
+
+/// C14's tool part: what a converter leaves at the output path after refusing its input must be
+/// rejected by the readers or be a complete file.
+pub fn c14_tool(t: &RefuseTool, out: &mut Outcome) {
+    refuse_tool_run(t, out, true)
+}
+
+fn refuse_tool_run(t: &RefuseTool, out: &mut Outcome, judge_leftover: bool) {
     if t.what.starts_with("merge_") {
+        if judge_leftover {
+            return;
+        }
         return c13_merge_tool(t, out);
     }
     let wd = workdir();
@@ -1472,6 +1485,19 @@ pub fn c13_tool(t: &RefuseTool, out: &mut Outcome) {
     // task that panics after the call has already failed (its channel peer is gone) is not the
     // call panicking
     let panicked = r.code == Some(101) || r.code.is_none();
+    if judge_leftover {
+        out.count("tool_refusal_leftovers_examined", 1);
+        if r.code == Some(0) {
+            return; // acceptance is C13's business
+        }
+        let left = std::fs::read(dir.join("out.bb")).unwrap_or_default();
+        if left.is_empty() {
+            out.count("tool_refusal_left_no_file", 1);
+        } else {
+            crate::cfam::judge_leftover(&left, t.bed, &tags, &format!("{:?} ({})", argv, t.what), out);
+        }
+        return;
+    }
     if r.stderr.contains("panicked at") && !panicked {
         out.count("tool_background_task_panic_after_error", 1);
     }
